@@ -12,7 +12,7 @@ import fs
 import pkg_resources
 import six
 from fs.wrap import read_only
-from fs.path import splitext
+from fs.path import basename, splitext
 from property_cached import cached_property
 
 from .._impl import bz2, json
@@ -166,6 +166,9 @@ class FilesystemRegistry(AbstractRegistry):
         )
 
     def __getitem__(self, item):
+        # keys are the stems of the files in the root directory, never paths
+        if not isinstance(item, six.string_types) or basename(item) != item:
+            raise KeyError(item)
         files = ("{}.{}".format(item, extension) for extension in self._extensions)
         for name in files:
             if self.fs.isfile(name):
